@@ -18,7 +18,8 @@ NAMESETS = [["0first"], ["azz"], ["zlast"], ["0first", "zlast"], ["azz", "bzz"]]
 # the Deserializer structs (json_server_str ...) and the convenience functions (json_server_fn_str = json::server_from_str ...)
 SERVER = ["json_server_str", "json_server_slice", "json_server_reader", "smile_server_slice", "smile_server_reader",
           "smile_server_mut_slice", "json_server_fn_str", "json_server_fn_slice", "json_server_fn_reader",
-          "smile_server_fn_slice", "smile_server_fn_reader", "smile_server_fn_mut_slice"]
+          "smile_server_fn_slice", "smile_server_fn_reader", "smile_server_fn_mut_slice",
+          "json_server_http", "smile_server_http"]      # the deserializers of conjure-http's JsonEncoding / SmileEncoding
 CLIENT = ["json_client_str", "json_client_slice", "json_client_reader", "smile_client_slice", "smile_client_reader",
           "smile_client_mut_slice", "json_client_fn_str", "json_client_fn_slice", "json_client_fn_reader",
           "smile_client_fn_slice", "smile_client_fn_reader", "smile_client_fn_mut_slice"]
